@@ -272,6 +272,8 @@ def check(facts, rep, tier, cfg):
             if b.path.endswith("websocket::handle_websocket::{closure#0}::{closure#0}"):
                 tr = Tracer(facts, b)
                 rep.analysed(b)
+                seen_route = set()
+                route_body = b
                 for bi, t in b.calls():
                     c = callee(t)
                     if c and c["name"] in ("get_mut", "insert") and "HashMap" in c["def"] and "Sender<penguin_mux::Datagram>" in c["path"]:
@@ -282,8 +284,18 @@ def check(facts, rep, tier, cfg):
                         while top.kind in ("ref", "deref"):
                             top = strip(top[1])
                         ok = kf == {"flow_id"} and top.kind == "field" and top[2] == "flow_id"
+                        seen_route.add(c["name"])
                         (rep.ok if ok else rep.bad)("C01.R2", "server-routes-by-flow-id/%s" % c["name"], where,
                                                     "udp_clients keyed by datagram.flow_id" if ok else "server UDP client table keyed by %s" % sorted(kf))
+        try:
+            if seen_route != {"get_mut", "insert"}:
+                rep.bad("C01.R2", "server-routing-table", "%s (%s)" % (loc_str(route_body.loc), route_body.path),
+                        "the server's per-flow routing table is not both looked up and filled by flow id (found %s): every datagram of a flow "
+                        "would start a new forwarder / socket" % sorted(seen_route))
+            else:
+                rep.ok("C01.R2", "server-routing-table", "", "lookup and insert present")
+        except NameError:
+            rep.bad("C01.R2", "server-routing-table", "", "server WebSocket loop not found (anchor missing)")
     # ---- R5 every forwarded datagram goes to the target it names
     if has_server:
         rep.rule("C01.R5", "server UDP forwarder: each datagram is sent to the (target_host, target_port) carried by that same datagram")
@@ -428,6 +440,14 @@ def check(facts, rep, tier, cfg):
                                 if c2["name"] == "truncate" and any(x.kind == "call" and x[6] == "recv_from" for x in walk(tr.operand(t2["args"][1]))):
                                     continue
                                 bufmut.append(c2["name"])
+                        # a buffer filled by recv_from must be cut to the received length before it becomes the payload
+                        recv = [(bj, t2) for bj, t2 in b.calls() if callee(t2) and callee(t2)["name"] == "recv_from"]
+                        from_recv_buf = any(x.kind == "call" and x[6] == "from_elem" for x in walk(dn)) and recv
+                        if from_recv_buf:
+                            cut = [bj for bj, t2 in b.calls() if callee(t2) and callee(t2)["name"] == "truncate" and len(t2["args"]) > 1 and
+                                   any(x.kind == "call" and x[6] == "recv_from" for x in walk(tr.operand(t2["args"][1])))]
+                            if not any(b.dominates(c_, bi) for c_ in cut):
+                                odd = odd + ["(no truncate(received length) before use)"]
                         if odd or bufmut:
                             rep.bad("C01.R9", "payload-unmodified/%s" % b.path.split("::{")[0], where,
                                     "the datagram payload is transformed on its way (%s): the target / local client does not receive the bytes that were sent" % (odd + bufmut))
